@@ -9,7 +9,8 @@ only = sys.argv[1:]
 
 
 def sh(cmd, cwd=None):
-    return subprocess.run(cmd, shell=True, cwd=cwd, capture_output=True, text=True)
+    env = dict(os.environ, JRSA_EVIDENCE_DIR="/var/tmp/jrsa-scratch-evidence")
+    return subprocess.run(cmd, shell=True, cwd=cwd, capture_output=True, text=True, env=env)
 
 
 def detect(patch, pids):
